@@ -69,11 +69,12 @@ def main():
         # replays written while judging a mutant are not findings on /repo
         out = os.path.join(VERIF, "seeded", sid)
         os.makedirs(out, exist_ok=True)
+        same = os.path.realpath(src) == os.path.realpath(out)
         for f in ("patch.diff", "demo.sh", "notes.md"):
             p = os.path.join(src, f)
-            if os.path.exists(p):
+            if os.path.exists(p) and not same:
                 shutil.copy(p, os.path.join(out, f))
-        for extra in sorted(os.listdir(src)):
+        for extra in ([] if same else sorted(os.listdir(src))):
             if extra not in ("patch.diff", "demo.sh", "notes.md") and os.path.getsize(os.path.join(src, extra)) < 200000 and os.path.isfile(os.path.join(src, extra)):
                 shutil.copy(os.path.join(src, extra), os.path.join(out, extra))
         mp = os.path.join(out, "meta.json")
